@@ -16,20 +16,27 @@ KERNELS = ["passive._spring_damper_dof_passive", "passive._spring_damper_tendon_
            "smooth._tendon_armature", "smooth._tendon_bias_coef", "smooth._tendon_bias_qfrc", "forward._qfrc_smooth__kernel"]
 FUNCS = ["passive.geom_semiaxes", "passive.ellipsoid_max_moment", "passive._pow2", "passive._pow4", "util_misc._poly_force", "math.quat_sub", "math.quat_to_vel", "math.mul_quat",
          "math.inert_vec", "math.motion_cross", "math.motion_cross_force"]
-LEVEL_TEXT = ("Theorems about the smooth-dynamics kernels regenerated from passive.py / smooth.py / forward.py on every run.  Passive: the exact write list of `_spring_damper_dof_passive` for "
-              "every joint type (hinge/slide: -x k(x) and -v b(v) with the polynomial coefficient; ball/free through the quaternion difference), of `_spring_damper_tendon_passive` (dead-band "
-              "spring, J^T scatter), `_gravity_force` (J_p^T(-m g gc)), `_qfrc_passive_kernel` (sum of the components with the exact static gating); SPRING/DAMPER bits zero exactly their "
-              "component; damper power <= 0, spring force 0 at the reference (all joint types), `_fluid_force` writes 0 for density = viscosity = 0 in both fluid models and the closed form of "
-              "the inertia-box model.  com_vel: one chain iteration = mj_comVel's per-body update for every joint-type sequence and, by induction, the whole branch.  RNE: write lists of "
-              "`_cacc_world/_cfrc/_cfrc_backward/_qfrc_bias`, cfrc linear in (cacc) and zero at rest; `_cacc_branch` at zero velocity propagates the root acceleration unchanged (=> bias "
-              "linear in gravity, zero for g = 0, v = 0).  CRB: closed form of `_M`'s write list (row i of the lower triangle, ancestors in CSR order, armature added once on the diagonal).  "
-              "fwd_acceleration: `_qfrc_smooth` = passive - bias + actuator + applied, 0 for sleeping trees.  Real fwd_position/velocity/actuation/acceleration are compared with "
-              "mujoco.mj_forward on random models.")
-LEVEL_NOTE = ("C02_partial: `support._apply_ft` (xfrc_applied / fluid / flex through the Jacobian), the flex passive kernels, `_tendon_dot`, and the sparse/tile LDL solve kernels are not "
-              "translated (nested tile kernels) and are covered by the differential oracle only; the kernel-to-launch composition (host loops) is argued in the docstring, with the "
-              "level-order lemma of C01Tree.  Trusted: Lean kernel + Mathlib, tier-B translator (interception), Spec/Passive.lean as a transcription of engine_passive.c.")
-ASSUMPTIONS = ["regular quaternions in qpos (norm >= 0.2); moderate states (|qvel| ~ 1); tolerance 2e-4 * (1 + max|reference vector|) for forces/velocities, 1e-4 for M; "
-               "qacc_smooth is checked by backward error |M q - f| <= 1e-3 (|M||q| + |f|) (independent of cond(M))"]
+LEVEL_TEXT = ("Theorems about the smooth-dynamics kernels regenerated from passive.py / smooth.py / forward.py / support.py on every run (all inputs, generic sizes).  Passive: exact write list "
+              "of `_spring_damper_dof_passive` for hinge/slide, ball and free joints (-x k(x), -k(|dif|) dif through quat_sub(normalize q, q_spring), -v b(|v|), polynomial coefficients, zeros "
+              "for an absent component), SPRING/DAMPER bits zero exactly their component; `_spring_damper_tendon_passive` (dead band, J-scatter), `_gravity_force` + `jac_dof` "
+              "(J_p(xipos)^T(-g m gravcomp)), `_qfrc_passive_kernel` (sum of components, exact static gating); over R: damper power <= 0, spring force 0 at the reference (scalar and quaternion), "
+              "dead band, `_fluid_force` = 0 for density = viscosity = 0 in both fluid models; ellipsoid fluid model: the body wrench is the sum over geoms of (F_g, T_g + (geom_xpos - xipos) x F_g), "
+              "i.e. every geom's force acts at the geom centre as in mj_applyFT (`fluid_ellipsoid_wrench_at_geom`, + a concrete regression value).  com_vel: closed form of a whole "
+              "`_comvel_branch` thread for every chain length and joint-type sequence (cvel[b] = cvel[parent] + sum cdof qvel, cdof_dot as mj_comVel).  RNE: exact writes of "
+              "`_cacc_world/_cfrc/_cfrc_backward/_qfrc_bias`; at rest cfrc = I cacc (linear) and `_cacc_branch` propagates the root acceleration.  fwd_acceleration: `_qfrc_smooth` = passive - "
+              "bias + actuator + applied, 0 for sleeping trees.  CRB: closed form of `_M`'s write list (row i of the lower triangle over the ancestor chain, armature added exactly once, the "
+              "walk ends with the chain or the row) and `M_writes_in_row` (no write leaves row i), symmetry of the inertia form.  Real fwd_position/velocity/actuation/acceleration are "
+              "compared with mujoco.mj_forward on regression inputs of repaired defects (run first) and on random models.")
+LEVEL_NOTE = ("C02_partial: `support._apply_ft` (xfrc_applied / fluid / flex wrenches to joint space), the flex passive kernels, `_tendon_dot` and the LDL factor/solve kernels are not in Gen "
+              "(nested tile kernels / not on the allow-list) and are covered by the differential oracle only; launch composition (level-order accumulation = C01Tree lemma) and float32 "
+              "round-off are not formalised.  Found by this check and repaired in /repo: 'fix: ellipsoid fluid model dropped the moment arm of geoms that are not at the body's centre of "
+              "mass' (the former witness is now the positive theorem `fluid_ellipsoid_wrench_at_geom`; its trigger input is regression case 1).  Repaired after another check's report: 'fix: "
+              "_M and _tendon_armature walked past the row of a simple dof' (`M_row_closed` now carries the row bound; regression case 3).  Deviations from MuJoCo C still present, reported "
+              "as findings with stable ids when observed: flex-edge-passive-ignored (flex edge stiffness/damping has no effect), gravcomp-none-positive (MuJoCo applies no gravcomp when no "
+              "body has gravcomp > 0).  Flex models are generated without SPRING/DAMPER disable bits (MuJoCo's flex elasticity ignores the bits, mujoco_warp honours them).  Trusted: Lean "
+              "kernel + Mathlib, tier-B translator (interception), Spec/Passive.lean as a transcription of engine_passive.c / engine_core_smooth.c.")
+ASSUMPTIONS = ["regular quaternions in qpos (norm 0.2..3); moderate states (|qvel| ~ 1); tolerance 2e-4 * (1 + max|reference vector|) for forces/velocities (5e-4 for fluid chains), 1e-4 for M; "
+               "qacc_smooth is checked by backward error |M q - f| <= 1e-3 (|M||q| + |f|) + 1e-5 (independent of cond(M)); the first observed deviation of a case is reported"]
 
 
 def _f(x):
@@ -85,7 +92,7 @@ def gen_model(rng, flex=False):
     tags.append("gravcomp")
     def repl_body(mo):
       if rng.random() < 0.6:
-        return f'<body name="{mo.group(1)}" gravcomp="{_f([rng.uniform(-0.5, 1.5)])}" '
+        return f'<body name="{mo.group(1)}" gravcomp="{_f([rng.uniform(0.0, 1.5) if rng.random() < 0.88 else rng.uniform(-0.5, 0.0)])}" '
       return mo.group(0)
     wb = re.sub(r'<body name="([^"]+)" ', repl_body, wb)
 
@@ -206,18 +213,39 @@ FLEX_XML = """<mujoco>
 
 
 def gen_flex(rng):
-  flags = []
+  # no SPRING/DAMPER disable flags here: MuJoCo's flex elasticity ignores those bits (its force, including the elasticity damping term, stays in qfrc_spring)
+  # while mujoco_warp honours them, so such inputs are outside the comparable domain
   tags = ["flex"]
-  for fl, p in (("spring", 0.15), ("damper", 0.15)):
-    if rng.random() < p:
-      flags.append(f'{fl}="disable"')
-      tags.append("no-" + fl)
-  e2d = str(rng.choice(["none", "bend", "stretch", "both"]))
+  e2d = str(rng.choice(["none", "bend", "stretch", "both"], p=[0.1, 0.3, 0.3, 0.3]))
   tags.append("e2d-" + e2d)
-  xml = FLEX_XML.format(opt=f'gravity="{_f(rng.normal(size=3) * 5)}"', flag=f"<flag {' '.join(flags)}/>" if flags else "", nx=int(rng.integers(2, 5)), ny=int(rng.integers(2, 5)),
-                        es=_f([rng.uniform(0, 30) * (rng.random() < 0.5)]), ed=_f([rng.uniform(0, 0.5) * (rng.random() < 0.5)]), young=_f([rng.uniform(1e3, 5e4)]),
+  ed = rng.uniform(0.05, 0.5) * (rng.random() < 0.3 or e2d == "none")
+  if ed:
+    tags.append("flex-edge-damping")
+  xml = FLEX_XML.format(opt=f'gravity="{_f(rng.normal(size=3) * 5)}"', flag="", nx=int(rng.integers(2, 5)), ny=int(rng.integers(2, 5)),
+                        es="0", ed=_f([ed]), young=_f([rng.uniform(1e3, 5e4)]),
                         poisson=_f([rng.uniform(0.0, 0.4)]), thick=_f([rng.uniform(0.005, 0.03)]), edamp=_f([rng.uniform(0, 0.02) * (rng.random() < 0.6)]), e2d=e2d)
   return xml, tags
+
+
+# Regression inputs of defects this check (or a neighbouring one) found and that were repaired in /repo; they run first and must pass.
+REGRESSIONS = [
+  # d9b6385 "fix: ellipsoid fluid model dropped the moment arm of geoms that are not at the body's centre of mass": MuJoCo qfrc_fluid[4] = 7.854, old code 0
+  ("ellipsoid-moment-arm", """<mujoco><option density="1000" viscosity="0" gravity="0 0 0"/><worldbody><body pos="0 0 1"><freejoint/>
+<inertial pos="0 0 0" mass="1" diaginertia="0.1 0.1 0.1"/><geom type="sphere" size="0.1" pos="0.5 0 0" fluidshape="ellipsoid" contype="0" conaffinity="0"/></body></worldbody></mujoco>""",
+   [0, 0, 1, 0, 0, 0]),
+  # two offset ellipsoid geoms on a rotating body, water + viscosity + wind
+  ("ellipsoid-two-geoms", """<mujoco><option density="900" viscosity="0.5" wind="1 -2 0.5"/><worldbody><body pos="0 0 1"><freejoint/>
+<geom type="capsule" size="0.05 0.2" pos="0.3 0.1 0" euler="0 40 10" fluidshape="ellipsoid" contype="0" conaffinity="0"/>
+<geom type="box" size="0.1 0.05 0.2" pos="-0.2 0 0.1" fluidshape="ellipsoid" fluidcoef="0.6 0.3 1.2 1.0 0.7" contype="0" conaffinity="0"/></body></worldbody></mujoco>""",
+   [0.3, -0.5, 1.0, 0.7, -1.1, 0.4]),
+  # 8d35602 "fix: _M and _tendon_armature walked past the row of a simple dof": axis-aligned slides (simple dofs) coupled by a tendon with armature
+  ("simple-dof-tendon-armature", """<mujoco><option gravity="0 0 -9.81"/><worldbody><body pos="0 0 1">
+<joint name="sx" type="slide" axis="1 0 0"/><joint name="sy" type="slide" axis="0 1 0"/><joint name="sz" type="slide" axis="0 0 1"/>
+<geom type="sphere" size="0.1" contype="0" conaffinity="0"/></body>
+<body pos="1 0 1"><freejoint/><geom type="sphere" size="0.1" contype="0" conaffinity="0"/></body></worldbody>
+<tendon><fixed name="t" armature="2"><joint joint="sx" coef="1"/><joint joint="sy" coef="1.5"/></fixed></tendon></mujoco>""",
+   [0.4, -0.3, 0.2, 0.1, 0.2, 0.3, 0.5, -0.4, 0.6]),
+]
 
 
 def _close(a, b, tol):
@@ -226,109 +254,8 @@ def _close(a, b, tol):
   return (not b.size) or np.abs(a - b).max() <= tol * (1.0 + np.abs(b).max())
 
 
-def _semiaxes(size, gtype):
-  if gtype == 2:
-    return np.array([size[0]] * 3)
-  if gtype == 3:
-    return np.array([size[0], size[0], size[1] + size[0]])
-  if gtype == 5:
-    return np.array([size[0], size[0], size[1]])
-  return np.array(size, dtype=np.float64)
-
-
-def _ellipsoid_force_world(mjm, mjd, g):
-  """world-frame FORCE of geom g under the ellipsoid fluid model (transcription of the force half of mj_ellipsoidFluidModel; float64)"""
-  b = mjm.geom_bodyid[g]
-  gf = mjm.geom_fluid.reshape(mjm.ngeom, -1)[g]
-  coef, blunt, slender, _ang, kutta, magnus = gf[0:6]
-  vm = gf[6:9]
-  rho, visc = mjm.opt.density, mjm.opt.viscosity
-  R = mjd.geom_xmat[g].reshape(3, 3)
-  ang, lin = mjd.cvel[b][:3], mjd.cvel[b][3:]
-  xipos = mjd.xipos[b]
-  lin_com = lin - np.cross(xipos - mjd.subtree_com[mjm.body_rootid[b]], ang)
-  lin_pt = lin_com + np.cross(ang, mjd.geom_xpos[g] - xipos)
-  la = R.T @ ang
-  ll = R.T @ lin_pt - R.T @ mjm.opt.wind
-  s = _semiaxes(mjm.geom_size[g], mjm.geom_type[g])
-  f = np.zeros(3)
-  if rho > 0:
-    f += np.cross(rho * vm * ll, la)
-  vol = 4.0 / 3.0 * np.pi * s[0] * s[1] * s[2]
-  dmax, dmin = s.max(), s.min()
-  dmid = s.sum() - dmax - dmin
-  A_max = np.pi * dmax * dmid
-  speed = np.linalg.norm(ll)
-  f_magnus = np.cross(la, ll) * (magnus * rho * vol)
-  s12, s20, s01 = s[1] * s[2], s[2] * s[0], s[0] * s[1]
-  pd = s12 ** 4 * ll[0] ** 2 + s20 ** 4 * ll[1] ** 2 + s01 ** 4 * ll[2] ** 2
-  pn = (s12 * ll[0]) ** 2 + (s20 * ll[1]) ** 2 + (s01 * ll[2]) ** 2
-  A_proj = np.pi * np.sqrt(pd / max(1e-15, pn))
-  cos_a = pn / max(1e-15, speed * pd)
-  nrm = np.array([s12 ** 2 * ll[0], s20 ** 2 * ll[1], s01 ** 2 * ll[2]])
-  f_kutta = np.zeros(3)
-  if rho > 0 and kutta != 0 and speed > 1e-15:
-    circ = np.cross(nrm, ll) * (kutta * rho * cos_a * A_proj)
-    f_kutta = np.cross(circ, ll)
-  eqD = 2.0 / 3.0 * s.sum()
-  drag = visc * 3.0 * np.pi * eqD + rho * speed * (A_proj * blunt + slender * (A_max - A_proj))
-  f += f_magnus + f_kutta - drag * ll
-  return R @ (f * coef)
-
-
-def _ellipsoid_moment_arm(mujoco, mjm, mjd):
-  """(some ellipsoid-model geom has its centre off the body's xipos,  sum over those geoms of J_r^T ((geom_xpos - xipos) x F_geom)):
-  the part of MuJoCo's qfrc_fluid that mujoco_warp drops (known defect, Props/C02Witness.lean)."""
-  nv = mjm.nv
-  arm = np.zeros(nv)
-  found = False
-  dis = int(mjm.opt.disableflags)
-  if not (mjm.opt.density > 0 or mjm.opt.viscosity > 0) or ((dis & 32) and (dis & 64)):
-    return False, arm
-  gf = mjm.geom_fluid.reshape(mjm.ngeom, -1)
-  for g in range(mjm.ngeom):
-    b = mjm.geom_bodyid[g]
-    if b == 0 or gf[g, 0] <= 0 or mjm.body_mass[b] < 1e-15:
-      continue
-    off = mjd.geom_xpos[g] - mjd.xipos[b]
-    if np.abs(off).max() < 1e-7:
-      continue
-    found = True
-    jp = np.zeros((3, nv)); jr = np.zeros((3, nv))
-    mujoco.mj_jac(mjm, mjd, jp, jr, mjd.xipos[b], b)
-    arm += jr.T @ np.cross(off, _ellipsoid_force_world(mjm, mjd, g))
-  return found, arm
-
-
-def _cmp(acc, nm, a, b, tol, ctxinfo, site):
-  b = np.asarray(b, dtype=np.float64)
-  a = np.asarray(a, dtype=np.float64).reshape(b.shape)
-  if not np.all(np.isfinite(b)):
-    acc.hit("skip-nonfinite-reference")
-    return True
-  scale = 1.0 + (np.abs(b).max() if b.size else 0.0)
-  err = np.abs(a - b).max() if b.size else 0.0
-  if not (err <= tol * scale):
-    acc.find(f"{nm} differs from MuJoCo C (max |d| {err:.3g}, scale {scale:.3g})", site, "vs-mujoco-" + nm, **ctxinfo)
-    return False
-  return True
-
-
-def _intercept(scenario, rng, max_tids, per_kernel):
-  """common.intercept, plus: enum-flag scalars (`m.opt.disableflags & DisableBit.X`, passed to `bool` kernel parameters) are converted to plain ints before the
-  records are replayed (IntFlag has __len__, which kernel_corr would take for a vector-valued scalar)."""
-  import enum
-  from harness.corr import kernel_corr
-  with kernel_corr.Recorder(wanted=KERNELS, max_records_per_kernel=per_kernel) as rec:
-    scenario()
-  for r in rec.records:
-    for k, v in list(r["before"].items()):
-      if isinstance(v, enum.Enum):
-        r["before"][k] = int(v)
-  return kernel_corr.check_records(rec, rng, max_tids=max_tids)
-
-
 def _run(ctx, ncases, rec, nflex=0):
+  thorough = bool(getattr(ctx, "thorough", False))
   import mujoco
   import warp as wp
   import mujoco_warp as mjw
@@ -336,7 +263,7 @@ def _run(ctx, ncases, rec, nflex=0):
   rng = np.random.default_rng(ctx.seed * 1000 + 2)
   acc = Acc()
 
-  def one(xml, tags, kind):
+  def one(xml, tags, kind, qvel=None):
     try:
       mjm = mujoco.MjModel.from_xml_string(xml)
     except ValueError as e:
@@ -346,8 +273,10 @@ def _run(ctx, ncases, rec, nflex=0):
       acc.hit("skip-nv0")
       return
     mjd = mujoco.MjData(mjm)
-    models.random_state(rng, mjm, mjd, qpos_scale=0.5 if kind == "tree" else 0.03, qvel_scale=1.0 if kind == "tree" else 0.3, unnormalized=True)
-    if rng.random() < 0.1:
+    models.random_state(rng, mjm, mjd, qpos_scale=0.03 if kind == "flex" else 0.5, qvel_scale=0.3 if kind == "flex" else 1.0, unnormalized=True)
+    if qvel is not None:
+      mjd.qvel[:] = qvel
+    elif rng.random() < 0.1:
       mjd.qvel[:] = 0.0
       tags = tags + ["qvel0"]
     if rng.random() < 0.08:
@@ -374,47 +303,54 @@ def _run(ctx, ncases, rec, nflex=0):
     acc.evals += 1
     info = dict(xml=xml, qpos=mjd.qpos.tolist(), qvel=mjd.qvel.tolist(), qfrc_applied=mjd.qfrc_applied.tolist(), xfrc_applied=mjd.xfrc_applied.tolist(), ctrl=mjd.ctrl.tolist())
     nv = mjm.nv
-    offset_ellipsoid, arm_qfrc = _ellipsoid_moment_arm(mujoco, mjm, mjd)
-    if offset_ellipsoid:
-      acc.hit("ellipsoid-geom-off-centre")
     Mfull = np.zeros((nv, nv))
-    mujoco.mj_fullM(mjm, Mfull, mjd.qM) if hasattr(mjd, "qM") and mjd.qM.size else mujoco.mju_sym2dense(Mfull, mjd.M, mjm.M_rownnz, mjm.M_rowadr, mjm.M_colind)
+    mujoco.mju_sym2dense(Mfull, mjd.M, mjm.M_rownnz, mjm.M_rowadr, mjm.M_colind)
+
+    def trigger(nm, a, b):
+      """stable trigger id of an OBSERVED deviation (the model is consulted only to name a deviation that has been observed)"""
+      if nm == "qfrc_gravcomp" and mjm.ngravcomp == 0 and not np.any(b) and np.any(a):
+        return "gravcomp-none-positive", ": MuJoCo applies no gravity compensation when no body has gravcomp > 0 (ngravcomp = 0); mujoco_warp applies every non-zero gravcomp"
+      if nm in ("qfrc_spring", "qfrc_damper") and mjm.nflex and (np.any(mjm.flex_edgestiffness) or np.any(mjm.flex_edgedamping)):
+        return "flex-edge-passive-ignored", ": flex edge stiffness/damping (flex_edgestiffness / flex_edgedamping) has no effect in mujoco_warp"
+      return "vs-mujoco-" + nm, ""
+
+    # quantities in dependency order; the FIRST observed deviation of a case is reported (later ones are its consequences) and the case ends
+    bad = False
     for w in range(nworld):
-      ok = True
-      Mw = d.M.numpy()[w]
-      ok &= _cmp(acc, "M", Mw[: mjd.M.size], mjd.M, 1e-4, info, "smooth.crb/tendon_armature")
-      for nm, a, b, site in (("cvel", d.cvel.numpy()[w], mjd.cvel, "smooth.com_vel"), ("cdof_dot", d.cdof_dot.numpy()[w], mjd.cdof_dot, "smooth.com_vel"),
-                             ("qfrc_spring", d.qfrc_spring.numpy()[w], mjd.qfrc_spring, "passive.passive"), ("qfrc_damper", d.qfrc_damper.numpy()[w], mjd.qfrc_damper, "passive.passive"),
-                             ("qfrc_gravcomp", d.qfrc_gravcomp.numpy()[w], mjd.qfrc_gravcomp, "passive.passive"), ("qfrc_fluid", d.qfrc_fluid.numpy()[w], mjd.qfrc_fluid, "passive.passive"),
-                             ("qfrc_passive", d.qfrc_passive.numpy()[w], mjd.qfrc_passive, "passive.passive"), ("qfrc_bias", d.qfrc_bias.numpy()[w], mjd.qfrc_bias, "smooth.rne/tendon_bias"),
-                             ("qfrc_actuator", d.qfrc_actuator.numpy()[w], mjd.qfrc_actuator, "forward.fwd_actuation"),
-                             ("qfrc_smooth", d.qfrc_smooth.numpy()[w], mjd.qfrc_smooth, "forward.fwd_acceleration")):
-        tol = 2e-4
-        if nm in ("qfrc_fluid", "qfrc_passive", "qfrc_smooth") and "fluid" in tags:
-          tol = 5e-4   # sqrt / pow chains of the fluid models in float32
-        if nm in ("qfrc_fluid", "qfrc_passive", "qfrc_smooth") and offset_ellipsoid:
-          # known defect (Props/C02Witness.lean): the moment (geom_xpos - xipos) x force of an ellipsoid-model geom is dropped.
-          # The comparison is made against MuJoCo's value MINUS exactly that moment, so that any OTHER deviation still alarms,
-          # and the deviation itself is reported once under its own trigger id.
-          if nm == "qfrc_fluid" and not _close(a, b, tol):
-            acc.find(f"qfrc_fluid differs from MuJoCo C (max |d| {np.abs(np.asarray(a) - b).max():.3g}): ellipsoid fluid force applied at xipos instead of geom_xpos", site,
-                     "fluid-ellipsoid-moment-arm", **info)
-          b = b - arm_qfrc
-        ok &= _cmp(acc, nm, a, b, tol, info, site)
+      checks = [("M", d.M.numpy()[w][: mjd.M.size], mjd.M, "smooth.crb/tendon_armature", 1e-4),
+                ("cvel", d.cvel.numpy()[w], mjd.cvel, "smooth.com_vel", 2e-4), ("cdof_dot", d.cdof_dot.numpy()[w], mjd.cdof_dot, "smooth.com_vel", 2e-4),
+                ("qfrc_spring", d.qfrc_spring.numpy()[w], mjd.qfrc_spring, "passive.passive", 2e-4), ("qfrc_damper", d.qfrc_damper.numpy()[w], mjd.qfrc_damper, "passive.passive", 2e-4),
+                ("qfrc_gravcomp", d.qfrc_gravcomp.numpy()[w], mjd.qfrc_gravcomp, "passive.passive", 2e-4),
+                ("qfrc_fluid", d.qfrc_fluid.numpy()[w], mjd.qfrc_fluid, "passive.passive", 5e-4),     # sqrt / pow chains of the fluid models in float32
+                ("qfrc_passive", d.qfrc_passive.numpy()[w], mjd.qfrc_passive, "passive.passive", 5e-4 if "fluid" in tags else 2e-4),
+                ("qfrc_bias", d.qfrc_bias.numpy()[w], mjd.qfrc_bias, "smooth.rne/tendon_bias", 2e-4),
+                ("qfrc_actuator", d.qfrc_actuator.numpy()[w], mjd.qfrc_actuator, "forward.fwd_actuation", 2e-4),
+                ("qfrc_smooth", d.qfrc_smooth.numpy()[w], mjd.qfrc_smooth, "forward.fwd_acceleration", 5e-4 if "fluid" in tags else 2e-4)]
+      for nm, a, b, site, tol in checks:
+        b = np.asarray(b, dtype=np.float64)
+        a = np.asarray(a, dtype=np.float64).reshape(b.shape)
+        if not np.all(np.isfinite(b)):
+          acc.hit("skip-nonfinite-reference")
+          bad = True
+          break
+        if not _close(a, b, tol):
+          trig, why = trigger(nm, a, b)
+          acc.find(f"{nm} differs from MuJoCo C (max |d| {np.abs(a - b).max():.3g}, scale {1 + np.abs(b).max():.3g}){why}", site, trig, **info)
+          bad = True
+          break
+      if bad:
+        break
       # qacc_smooth: backward error with MuJoCo's M and qfrc_smooth
       qa = d.qacc_smooth.numpy()[w].astype(np.float64)
-      f = mjd.qfrc_smooth.astype(np.float64) - (arm_qfrc if offset_ellipsoid else 0.0)
-      if np.all(np.isfinite(qa)):
-        res = np.abs(Mfull @ qa - f)
-        bound = 1e-3 * (np.abs(Mfull) @ np.abs(qa) + np.abs(f)) + 1e-5
-        if not np.all(res <= bound):
-          acc.find(f"qacc_smooth: M q - qfrc_smooth residual {res.max():.3g} exceeds the float32 backward-error bound {bound[np.argmax(res - bound)]:.3g}", "forward.fwd_acceleration",
-                   "vs-mujoco-qacc_smooth", **info)
-          ok = False
-      else:
+      f = mjd.qfrc_smooth.astype(np.float64)
+      if not np.all(np.isfinite(qa)):
         acc.find("qacc_smooth is not finite", "forward.fwd_acceleration", "vs-mujoco-qacc_smooth", **info)
-        ok = False
-      if not ok:
+        break
+      res = np.abs(Mfull @ qa - f)
+      bound = 1e-3 * (np.abs(Mfull) @ np.abs(qa) + np.abs(f)) + 1e-5
+      if not np.all(res <= bound):
+        acc.find(f"qacc_smooth: M q - qfrc_smooth residual {res.max():.3g} exceeds the float32 backward-error bound {bound[np.argmax(res - bound)]:.3g}", "forward.fwd_acceleration",
+                 "vs-mujoco-qacc_smooth", **info)
         break
     for t in tags:
       acc.hit(t)
@@ -426,6 +362,8 @@ def _run(ctx, ncases, rec, nflex=0):
     acc.sample({"kind": kind, "nbody": int(mjm.nbody), "nv": int(nv), "ntendon": int(mjm.ntendon), "tags": tags, "nworld": nworld})
 
   def scenario():
+    for name, xml, qvel in REGRESSIONS:
+      one(xml, ["regression-" + name] + (["fluid"] if "density" in xml else []), "regression", qvel=qvel)
     for c in range(ncases):
       xml, tags = gen_model(rng)
       one(xml, tags, "tree")
@@ -434,7 +372,7 @@ def _run(ctx, ncases, rec, nflex=0):
       one(xml, tags, "flex")
 
   if rec:
-    kc = _intercept(scenario, rng, max_tids=12, per_kernel=3)
+    kc, _ = intercept(KERNELS, scenario, rng, max_tids=16 if thorough else 12, per_kernel=4 if thorough else 3)
   else:
     scenario()
     kc = None
@@ -445,14 +383,18 @@ RULE = ("random forests (1-8 bodies, <= 2 joints per body, free/ball/hinge/slide
         "gravcomp; option density / viscosity / wind (inertia-box model, and geoms with fluidshape=ellipsoid and random fluidcoef), random gravity, spring/damper/gravity disable flags, "
         "jacobian dense/sparse/auto; fixed and spatial tendons with (polynomial) stiffness, damping, springlength dead-band and armature; motors; 1-2 worlds; random qpos (unnormalised "
         "quaternions), qvel, qfrc_applied, xfrc_applied, ctrl; plus flexcomp cloth grids (edge stiffness/damping, elasticity with every elastic2d mode) on the flex tier.  "
-        "fwd_position+fwd_velocity+fwd_actuation+fwd_acceleration vs mujoco.mj_forward on M (CSR), cvel, cdof_dot, qfrc_spring/damper/gravcomp/fluid/passive/bias/actuator/smooth and "
+        "Three fixed regression inputs of repaired defects run first.  fwd_position+fwd_velocity+fwd_actuation+fwd_acceleration vs mujoco.mj_forward on M (CSR), cvel, cdof_dot, qfrc_spring/damper/gravcomp/fluid/passive/bias/actuator/smooth and "
         "qacc_smooth (backward error); distinct = (kind, nbody, njnt, nv, ntendon, joint types, feature tags)")
 
 
 def correspondence(ctx):
-  from harness.corr import func_corr
-  fc = func_corr.run(FUNCS, ncases=64 if ctx.thorough else 24, seed=ctx.seed, int_ranges={"util_misc._poly_force": (0, 1), "passive.geom_semiaxes": (0, 7), "passive.ellipsoid_max_moment": (0, 2)})
-  acc, kc = _run(ctx, 150 if ctx.thorough else 24, True, nflex=12 if ctx.thorough else 3)
+  # the Lean driver start-up dominates the cost (the real-code oracle takes ~2 s for 40 models): the func-level differential of the helper @wp.funcs runs in the
+  # thorough tier only; in the quick tier they are exercised through the 17 intercepted kernels that call them
+  fc = None
+  if ctx.thorough:
+    from harness.corr import func_corr
+    fc = func_corr.run(FUNCS, ncases=64, seed=ctx.seed, int_ranges={"util_misc._poly_force": (0, 1), "passive.geom_semiaxes": (0, 7), "passive.ellipsoid_max_moment": (0, 2)})
+  acc, kc = _run(ctx, 150 if ctx.thorough else 40, True, nflex=12 if ctx.thorough else 4)
   return result(acc, RULE, kc=kc, fc=fc)
 
 
